@@ -6,19 +6,26 @@ open CC.Spec.DPool (Op)
 open CC.DynamicPool (OpOk RunOk)
 
 /-- no operation faults (the `memset` of calloc and the user's writes stay inside the newest page,
-`mem_free` is only called on blocks the pool owns), and the ledger moves exactly with the number of
-blocks the pool owns (the struct plus one per page) -/
+`mem_free` is only called on blocks the pool owns), the ledger counter of the pool's allocator
+triple moves exactly with the number of blocks the pool owns (the struct plus one per page), and the
+other triple's counter never moves -/
 theorem nofault (grow : Nat → Nat) (fresh : Nat) (s : DynamicPool) (op : Op) (m : Mem)
-    (h : s.Inv) (hop : OpOk s op) (hl : s.owned ≤ m.live) :
+    (h : s.Inv) (hz : s.Sized) (hop : OpOk s op) (hl : s.owned ≤ m.liveT s.triple) :
     (DynamicPool.step grow fresh s op m).2.2.fault = m.fault ∧
-    (DynamicPool.step grow fresh s op m).2.2.live + s.owned = m.live + (DynamicPool.step grow fresh s op m).2.1.owned :=
-  ⟨(C13.step_refines grow fresh s op m h hop hl).2.2.2.2, (C13.step_refines grow fresh s op m h hop hl).2.2.2.1⟩
+    (DynamicPool.step grow fresh s op m).2.2.liveT s.triple + s.owned =
+      m.liveT s.triple + (DynamicPool.step grow fresh s op m).2.1.owned ∧
+    (DynamicPool.step grow fresh s op m).2.2.liveO s.triple = m.liveO s.triple := by
+  obtain ⟨_, _, _, _, _, a, b, c⟩ := C13.step_refines grow fresh s op m h hz hop hl
+  exact ⟨b, a, c⟩
 
 theorem history_nofault (grow : Nat → Nat) (fresh : Nat) (ops : List Op) (s : DynamicPool) (m : Mem)
-    (h : s.Inv) (hl : s.owned ≤ m.live) (hops : RunOk grow fresh s ops m) :
+    (h : s.Inv) (hz : s.Sized) (hl : s.owned ≤ m.liveT s.triple) (hops : RunOk grow fresh s ops m) :
     (DynamicPool.run grow fresh s ops m).2.2.2.fault = m.fault ∧
-    (DynamicPool.run grow fresh s ops m).2.2.2.live + s.owned = m.live + (DynamicPool.run grow fresh s ops m).2.2.1.owned :=
-  ⟨(C13.history_refines grow fresh ops s m h hl hops).2.2.2.2, (C13.history_refines grow fresh ops s m h hl hops).2.2.2.1⟩
+    (DynamicPool.run grow fresh s ops m).2.2.2.liveT s.triple + s.owned =
+      m.liveT s.triple + (DynamicPool.run grow fresh s ops m).2.2.1.owned ∧
+    (DynamicPool.run grow fresh s ops m).2.2.2.liveO s.triple = m.liveO s.triple := by
+  obtain ⟨_, _, _, _, _, a, b, c⟩ := C13.history_refines grow fresh ops s m h hz hl hops
+  exact ⟨b, a, c⟩
 
 /-- **no division by zero in padded mode**: the remainder `size % alignment_boundary` is computed
 only behind the guard `alignment_boundary > 1`; for boundaries 0 and 1 the padding is 0 and no
@@ -28,23 +35,26 @@ theorem padding_guard (packed : Bool) (ab n : Nat) (h : ab ≤ 1) : padOf packed
   have : ¬ ab > 1 := by omega
   simp [this]
 
-theorem new_stores_boundary (size ab fresh : Nat) (fixed packed : Bool) (m m' : Mem) (s : DynamicPool)
-    (h : DynamicPool.new size fixed packed ab fresh m = (.ok, some s, m')) :
-    s.ab = ab ∧ s.isPacked = packed ∧ s.isFixed = fixed ∧ s.topPageSize = size := by
+theorem new_stores_boundary (size ab fresh : Nat) (fixed packed : Bool) (t : Triple) (m m' : Mem) (s : DynamicPool)
+    (h : DynamicPool.new size fixed packed ab fresh t m = (.ok, some s, m')) :
+    s.ab = ab ∧ s.isPacked = packed ∧ s.isFixed = fixed ∧ s.topPageSize = size ∧ s.triple = t := by
   unfold DynamicPool.new at h; dsimp only at h
-  cases h1 : m.alloc.1
-  · simp [h1] at h
-  · cases h2 : m.alloc.2.alloc.1
-    · simp [h1, h2] at h
-    · simp only [h1, h2, Bool.not_true, Bool.false_eq_true, if_false, Prod.mk.injEq, Option.some.injEq, true_and] at h
-      rw [← h.1]; exact ⟨rfl, rfl, rfl, rfl⟩
+  split at h
+  · simp at h
+  · cases h1 : (m.allocT t).1
+    · simp [h1] at h
+    · cases h2 : ((m.allocT t).2.allocT t).1
+      · simp [h1, h2] at h
+      · simp only [h1, h2, Bool.not_true, Bool.false_eq_true, if_false, Prod.mk.injEq, Option.some.injEq, true_and] at h
+        rw [← h.1]; exact ⟨rfl, rfl, rfl, rfl, rfl⟩
 
 /-- **reset** keeps exactly the oldest page and releases every other page exactly once: one
-`mem_free` per released page, no fault (a second free of a page would raise it) -/
-theorem reset_releases_pages (s : DynamicPool) (m : Mem) (h : s.Inv) (hl : s.owned ≤ m.live) :
-    (s.reset m).1.pages.length = 1 ∧ (s.reset m).2.live + (s.pages.length - 1) = m.live ∧
+`mem_free` per released page through the pool's triple, no fault (a second free of a page would
+raise it) -/
+theorem reset_releases_pages (s : DynamicPool) (m : Mem) (h : s.Inv) (hl : s.owned ≤ m.liveT s.triple) :
+    (s.reset m).1.pages.length = 1 ∧ (s.reset m).2.liveT s.triple + (s.pages.length - 1) = m.liveT s.triple ∧
     (s.reset m).2.fault = m.fault := by
-  obtain ⟨e1, e2, e3⟩ := DynamicPool.reset_ledger s m h hl
+  obtain ⟨e1, e2, e3, _⟩ := DynamicPool.reset_ledger s m h hl
   have hlen : (s.reset m).1.pages.length = 1 := by rw [e1]; rfl
   refine ⟨hlen, ?_, e3⟩
   simp only [DynamicPool.owned] at e2 hl
@@ -54,23 +64,34 @@ theorem reset_releases_pages (s : DynamicPool) (m : Mem) (h : s.Inv) (hl : s.own
   omega
 
 /-- **destroy** releases every page and the pool struct exactly once -/
-theorem destroy_releases_pages (s : DynamicPool) (m : Mem) (h : s.Inv) (hl : s.owned ≤ m.live) :
-    (s.destroy m).live + (s.pages.length + 1) = m.live ∧ (s.destroy m).fault = m.fault :=
-  DynamicPool.destroy_ledger s m h hl
+theorem destroy_releases_pages (s : DynamicPool) (m : Mem) (h : s.Inv) (hl : s.owned ≤ m.liveT s.triple) :
+    (s.destroy m).liveT s.triple + (s.pages.length + 1) = m.liveT s.triple ∧ (s.destroy m).fault = m.fault :=
+  ⟨(DynamicPool.destroy_ledger s m h hl).1, (DynamicPool.destroy_ledger s m h hl).2.1⟩
 
 /-- `new … any history (mallocs, callocs, frees, resets, refused pages) … destroy` returns the
-ledger to its initial value and nothing faults -/
-theorem destroy_releases_all (grow : Nat → Nat) (fresh size ab : Nat) (fixed packed : Bool) (m0 m1 : Mem)
-    (s0 : DynamicPool) (hnew : DynamicPool.new size fixed packed ab fresh m0 = (.ok, some s0, m1))
+ledger of the pool's triple to its initial value, never touches the other triple's, and nothing
+faults — for the configured triple (`cc_dynamic_pool_new_conf`) and the C library
+(`cc_dynamic_pool_new`) alike, for every initial size the constructor accepts -/
+theorem destroy_releases_all (grow : Nat → Nat) (fresh size ab : Nat) (fixed packed : Bool) (t : Triple) (m0 m1 : Mem)
+    (s0 : DynamicPool) (hnew : DynamicPool.new size fixed packed ab fresh t m0 = (.ok, some s0, m1))
     (ops : List Op) (hops : RunOk grow fresh s0 ops m1) :
-    ((DynamicPool.run grow fresh s0 ops m1).2.2.1.destroy (DynamicPool.run grow fresh s0 ops m1).2.2.2).live = m0.live ∧
-    ((DynamicPool.run grow fresh s0 ops m1).2.2.1.destroy (DynamicPool.run grow fresh s0 ops m1).2.2.2).fault = m0.fault :=
-  (C13.new_history_destroy grow fresh size ab fixed packed m0 m1 s0 hnew ops hops).2.2.2.2
+    ((DynamicPool.run grow fresh s0 ops m1).2.2.1.destroy (DynamicPool.run grow fresh s0 ops m1).2.2.2).liveT t = m0.liveT t ∧
+    ((DynamicPool.run grow fresh s0 ops m1).2.2.1.destroy (DynamicPool.run grow fresh s0 ops m1).2.2.2).fault = m0.fault ∧
+    ((DynamicPool.run grow fresh s0 ops m1).2.2.1.destroy (DynamicPool.run grow fresh s0 ops m1).2.2.2).liveO t = m0.liveO t :=
+  (C13.new_history_destroy grow fresh size ab fixed packed t m0 m1 s0 hnew ops hops).2.2.2.2
 
-/-- a constructor that fails leaves the ledger balanced -/
-theorem new_failure_balanced (size ab fresh : Nat) (fixed packed : Bool) (m : Mem)
-    (h : (DynamicPool.new size fixed packed ab fresh m).1 ≠ .ok) :
-    (DynamicPool.new size fixed packed ab fresh m).2.2.live = m.live :=
-  (C13.new_refused size ab fresh fixed packed m h).2.2
+/-- a constructor that fails leaves the ledger balanced; sizes for which `size + sizeof(PageInfo)`
+would wrap are rejected before anything is allocated (M9) -/
+theorem new_failure_balanced (size ab fresh : Nat) (fixed packed : Bool) (t : Triple) (m : Mem)
+    (h : (DynamicPool.new size fixed packed ab fresh t m).1 ≠ .ok) :
+    (DynamicPool.new size fixed packed ab fresh t m).2.2.liveT t = m.liveT t ∧
+    (DynamicPool.new size fixed packed ab fresh t m).2.2.fault = m.fault :=
+  (C13.new_refused size ab fresh fixed packed t m h).2.2
+
+theorem oversize_rejected (size ab fresh : Nat) (fixed packed : Bool) (t : Triple) (m : Mem) (h : pageLimit < size) :
+    DynamicPool.new size fixed packed ab fresh t m = (.errInvalidCapacity, none, m) := by
+  unfold DynamicPool.new
+  rw [DynamicPool.pgLimit_eq]
+  simp [h]
 
 end CC.Properties.C06DynamicPool
